@@ -7,6 +7,7 @@ func init() {
 	vHarnesses["H_C17_pure_encode"] = H_C17_pure_encode
 	vHarnesses["H_C17_pure_indexed"] = H_C17_pure_indexed
 	vHarnesses["H_C17_copy"] = H_C17_copy
+	vHarnesses["H_C17_copy_named"] = H_C17_copy_named
 	vHarnesses["H_C17_footprint"] = H_C17_footprint
 }
 
@@ -226,3 +227,36 @@ func (r *vSlowReader) Read(p []byte) (int, error) {
 }
 
 func vSlow(b []byte) io.Reader { return &vSlowReader{b: b} }
+
+// Copy of a "flat looking" Map whose values are of the named type Map (not
+// map[string]interface{}): nothing is shared with the original
+func H_C17_copy_named() {
+	inner := Map{"b": vNondetString(1, 1, "xy")}
+	m := map[string]interface{}{"a": inner, "n": vNondetString(0, 1, "x")}
+	if vChoose(2) == 1 {
+		m["c"] = Map{"d": Map{"e": "1"}}
+	}
+	c, err := Map(m).Copy()
+	vAssert(err == nil, "copy(named): a Map holding Map values can be copied")
+	mark := vMark(m)
+	for _, k := range []string{"a", "c"} {
+		switch cv := c[k].(type) {
+		case map[string]interface{}:
+			cv["zz"] = "changed"
+			for kk := range cv {
+				if in, ok := cv[kk].(map[string]interface{}); ok {
+					in["zz"] = "changed"
+				}
+			}
+		case Map:
+			cv["zz"] = "changed"
+			for kk := range cv {
+				if in, ok := cv[kk].(Map); ok {
+					in["zz"] = "changed"
+				}
+			}
+		}
+	}
+	vAssertUnchangedSince(mark, "copy(named): mutating the copy leaves the original untouched")
+	vCover("named")
+}
